@@ -83,8 +83,9 @@ func (h *vHS) dump(x int) string {
 		}
 		return 0
 	}
-	return fmt.Sprintf("st=%d pil=%d pfwd=%d pifwd=%d sz=%d uil=%d ufwd=%d uifwd=%d", a.getState(), b(a.peerInterleaving), b(a.peerForwardTSN),
-		b(a.peerIForwardTSN), b(a.sendZeroChecksum), b(a.useInterleaving), b(a.useForwardTSN), b(a.useIForwardTSN))
+	return fmt.Sprintf("st=%d pil=%d pfwd=%d pifwd=%d sz=%d uil=%d ufwd=%d uifwd=%d t1i=%d t1c=%d", a.getState(), b(a.peerInterleaving), b(a.peerForwardTSN),
+		b(a.peerIForwardTSN), b(a.sendZeroChecksum), b(a.useInterleaving), b(a.useForwardTSN), b(a.useIForwardTSN),
+		b(a.t1Init.isRunning()), b(a.t1Cookie.isRunning()))
 }
 
 func (h *vHS) collect(x int) string {
@@ -98,6 +99,19 @@ func (h *vHS) collect(x int) string {
 		return "nothing"
 	}
 	return strings.Join(parts, ";")
+}
+
+// one inbound packet through the real handler; a panic of the implementation is reported, not propagated
+func (h *vHS) inbound(y int, raw []byte) (r string) {
+	defer synctest.Wait()
+	defer func() {
+		if p := recover(); p != nil {
+			r = "PANIC"
+		}
+	}()
+	_ = h.as[y].handleInbound(raw)
+
+	return "ok"
 }
 
 func (h *vHS) closeAll() {
@@ -160,6 +174,7 @@ func (h *vHS) exec(op []string) {
 		a.storedInit = init
 		_ = a.sendInit()
 		a.setState(cookieWait)
+		a.t1Init.start(a.rtoMgr.getRTO()) // as initClient does (the timer never fires by itself here: virtual time does not advance)
 		a.lock.Unlock()
 		out := h.collect(x)
 		h.l.line(line, out+" | "+h.dump(x))
@@ -171,10 +186,77 @@ func (h *vHS) exec(op []string) {
 			return
 		}
 		y := 1 - x
-		_ = h.as[y].handleInbound(append([]byte(nil), h.hist[x][i]...))
-		synctest.Wait()
+		if h.inbound(y, append([]byte(nil), h.hist[x][i]...)) == "PANIC" {
+			h.l.line(line, "PANIC")
+			h.l.stat("hs.deliver.panic")
+			return
+		}
 		out := h.collect(y)
 		h.l.line(line, vHsPacketSummary(h.hist[x][i])+" => "+out+" | "+h.dump(y))
+	case "forge": // a packet no honest run of the two endpoints produces (peer restarted with other options, misplaced or hostile chunk) handed to endpoint y
+		y := int(vAtoU32(t, op[2]))
+		a := h.as[y]
+		pkt := &packet{sourcePort: 5000, destinationPort: 5000}
+		a.lock.RLock()
+		pkt.verificationTag = a.myVerificationTag
+		var own []byte
+		if a.myCookie != nil {
+			own = append([]byte(nil), a.myCookie.cookie...)
+		}
+		a.lock.RUnlock()
+		mkParams := func(ext, zc string) []param {
+			var ps []param
+			if ext != "none" {
+				se := &paramSupportedExtensions{}
+				for _, f := range strings.Split(ext, ",") {
+					if f != "" && f != "empty" {
+						se.ChunkTypes = append(se.ChunkTypes, chunkType(vAtoU32(t, f)))
+					}
+				}
+				ps = append(ps, se)
+			}
+			if zc != "none" {
+				ps = append(ps, &paramZeroChecksumAcceptable{edmid: vAtoU32(t, zc)})
+			}
+			return ps
+		}
+		common := chunkInitCommon{initiateTag: 777, advertisedReceiverWindowCredit: 100000, numOutboundStreams: 10, numInboundStreams: 10, initialTSN: 5555}
+		switch op[3] {
+		case "init":
+			pkt.verificationTag = 0
+			c := &chunkInit{}
+			c.chunkInitCommon = common
+			c.params = mkParams(op[4], op[5])
+			pkt.chunks = []chunk{c}
+		case "initack":
+			c := &chunkInitAck{}
+			c.chunkInitCommon = common
+			c.params = append(mkParams(op[4], op[5]), &paramStateCookie{cookie: []byte{7, 7, 7, 7}})
+			pkt.chunks = []chunk{c}
+		case "cookieecho":
+			ck := []byte{9, 9, 9, 9}
+			if op[4] == "own" && own != nil {
+				ck = own
+			}
+			pkt.chunks = []chunk{&chunkCookieEcho{cookie: ck}}
+		case "cookieack":
+			pkt.chunks = []chunk{&chunkCookieAck{}}
+		default:
+			t.Fatalf("hs forge: unknown kind %v", op)
+		}
+		raw, err := pkt.marshal(true)
+		if err != nil {
+			h.l.line(line, "marshalerr")
+			return
+		}
+		if h.inbound(y, raw) == "PANIC" {
+			h.l.line(line, "PANIC")
+			h.l.stat("hs.forge.panic")
+			return
+		}
+		out := h.collect(y)
+		h.l.line(line, out+" | "+h.dump(y))
+		h.l.stat("hs.forge." + op[3])
 	case "t1q": // the timer fires and queues the retransmission; the write loop has not marshalled it yet
 		x := int(vAtoU32(t, op[2]))
 		id := timerT1Init
@@ -234,6 +316,30 @@ func vHSGenerate(h *vHS, r *vrand, nseq int) {
 			h.do("hs gather 0")
 			h.l.stat("hs.scripted_queued_rtx")
 		}
+		if s%5 == 4 {
+			// packets no honest pair produces: a peer that restarts with other options between two attempts, misplaced
+			// handshake chunks in every state, junk cookies
+			y := r.n(2)
+			exts := []string{"none", "empty", "130,192", "130,192,64,194", "64", "192,194", "130"}
+			zcs := []string{"none", "1", "2"}
+			for k := 0; k < 2+r.n(5); k++ {
+				switch r.n(8) {
+				case 0, 1, 2:
+					h.do("hs forge %d init %s %s", y, r.pickS(exts...), r.pickS(zcs...))
+				case 3:
+					h.do("hs forge %d initack %s %s", y, r.pickS(exts...), r.pickS(zcs...))
+				case 4:
+					h.do("hs forge %d cookieecho %s", y, r.pickS("own", "junk"))
+				case 5:
+					h.do("hs forge %d cookieack", y)
+				default:
+					if n := len(h.hist[1-y]); n > 0 {
+						h.do("hs deliver %d %d", 1-y, n-1-r.n(min(n, 2)))
+					}
+				}
+			}
+			h.l.stat("hs.forged_sequences")
+		}
 		nops := 6 + r.n(30)
 		for i := 0; i < nops; i++ {
 			x := r.n(2)
@@ -280,6 +386,17 @@ func vHSGenerate(h *vHS, r *vrand, nseq int) {
 					h.do("hs deliver %d %d", x, i)
 				}
 			}
+		}
+		if s%4 == 1 {
+			// misplaced handshake chunks after the handshake is over (or stuck), at both endpoints
+			for y := 0; y < 2; y++ {
+				h.do("hs forge %d cookieecho junk", y)
+				h.do("hs forge %d cookieecho own", y)
+				h.do("hs forge %d cookieack", y)
+				h.do("hs forge %d initack %s none", y, r.pickS("none", "130,192", "130,192,64,194"))
+				h.do("hs forge %d init %s %s", y, r.pickS("none", "130,192", "130,192,64,194"), r.pickS("none", "1"))
+			}
+			h.l.stat("hs.misplaced_after_handshake")
 		}
 		h.l.stat("hs.sequences")
 		if h.as[0].getState() == established && h.as[1].getState() == established {
